@@ -888,3 +888,45 @@ def probe_json(spec):
             r[phase] = ph
         o['objects'].append(r)
     return o
+
+
+# ------------------------------------------------------------------ C06: plant / CHP unit commitment
+def probe_plant(spec):
+    o = probe_portfolio(spec)
+    if o.get('status') != 'ok':
+        return o
+    # admissible on/off patterns of the unit alone (no ramp: the claim is about run times and the initial state)
+    o['patterns'] = None
+    try:
+        ua = [a for a in spec['assets'] if a['kind'] in ('Plant', 'CHPAsset')][0]
+        ub = dict(ua)
+        ub.pop('ramp', None)
+        unit = mk_asset(ub, {}, spec['grid'].get('tz'))
+        tg = mk_grid(spec['grid'])
+        op = unit.setup_optim_problem(mk_prices(spec), tg)
+        mp = op.mapping
+        on = mp[(mp['var_name'] == 'bool_on')]
+        on = on[~on.index.duplicated(keep='first')]
+        T = len(on)
+        if 1 <= T <= int(spec['opts'].get('max_pattern_T', 6)):
+            idx = [int(i) for i in on.index]
+            o['pattern_steps'] = [int(t) for t in on['time_step'].values]
+            l0, u0 = op.l.copy(), op.u.copy()
+            pats = {}
+            for m in range(2 ** T):
+                bits = [(m >> k) & 1 for k in range(T)]
+                op.l[:] = l0; op.u[:] = u0
+                clash = False
+                for j, b in zip(idx, bits):
+                    if b < l0[j] - 1e-9 or b > u0[j] + 1e-9:
+                        clash = True
+                    op.l[j] = op.u[j] = float(b)
+                if clash:
+                    pats[''.join(map(str, bits))] = False
+                    continue
+                r = op.optimize()
+                pats[''.join(map(str, bits))] = not isinstance(r, str)
+            o['patterns'] = pats
+    except Exception as e:
+        o['patterns_error'] = repr(e)[:300]
+    return o
